@@ -29,6 +29,7 @@ def run(ck):
     ck.run_rule(d4_root_recorded)
     ck.run_rule(d5_history_monotone)
     ck.run_rule(d7_table_entries_follow_history)
+    ck.run_rule(d8_history_in_key_space)
     # the history identifies positions by their hash: the hash rules of C08 are necessary here too (a hash that reads the move counters never repeats)
     from .c08 import h1_h2_h5_influence, h4_keys
     ck.run_rule(h1_h2_h5_influence)
@@ -278,3 +279,53 @@ def d7_table_entries_follow_history(ck):
 
 
 d7_table_entries_follow_history.raw_bodies = True   # an invalidating helper must stay visible as a call
+
+
+def d8_history_in_key_space(ck):
+    """A recorded position is found again only through the hasher it was recorded with.  Wherever the search assembles its working set
+    (hasher, tables, history) a history taken over from an earlier artifact must come with that artifact's hasher; a fresh hasher next to an
+    old history makes every recorded position invisible."""
+    prog = ck.prog
+    ITER = S + "Searcher::analyze_iterative"
+    bodies = [ITER] + list(prog.closures_of(ITER))
+    n = 0
+    for bn in bodies:
+        b = prog.body(bn)
+        if b is None:
+            continue
+        tb = TermBuilder(prog, b)
+        for bb, blk in enumerate(b.blocks):
+            if blk.get("cleanup"):
+                continue
+            for s_ in blk["stmts"]:
+                if s_["k"] != "assign" or "agg" not in s_["rv"] or "tuple" not in s_["rv"]["agg"]:
+                    continue
+                ops = s_["rv"]["ops"]
+                tys = []
+                for o in ops:
+                    pl = o.get("move") or o.get("copy")
+                    tys.append(_place_ty(b, pl) if pl is not None else "")
+                hi = [i for i, t in enumerate(tys) if t.endswith("hasher::ZobristHasher")]
+                si = [i for i, t in enumerate(tys) if t.endswith("searcher::StateHistory")]
+                if len(hi) != 1 or len(si) != 1:
+                    continue
+                n += 1
+                h, st = tb.operand(ops[hi[0]]), tb.operand(ops[si[0]])
+                taken_over = [x for x in walk(st) if x[0] == "field" and x[2] == "state_history"]
+                if not taken_over:
+                    continue          # a new history: valid under any hasher
+                base = taken_over[0][1]
+                ok = any(x[0] == "field" and x[2] == "hasher" and x[1] == base for x in walk(h))
+                ck.req(ok, "D8.same_key_space", bn.split("::")[-1], b.where(s_.get("line")),
+                       "the search continues with the history of an earlier artifact (%s) but not with that artifact's hasher (%s): positions recorded "
+                       "earlier are keyed in another key space and are never recognised" % (show(st)[:60], show(h)[:60]))
+    ck.floor("D8", n, 1, "places where (hasher, .., history) is assembled in analyze_iterative")
+
+
+def _place_ty(body, pl):
+    if not pl["p"]:
+        return body.local_ty(pl["l"])
+    for e in reversed(pl["p"]):
+        if isinstance(e, dict) and "ty" in e:
+            return e["ty"]
+    return ""
